@@ -54,6 +54,19 @@ Print Assumptions C11_parse_serialised.
 Theorem C11_oversize_rejected : forall kv p, to_pairs kv = Ok p ->
   65535 < Z.of_nat (length (serialize_pairs (mapping_order p))) -> go_map_to_mapping kv = Err.
 Proof. exact go_map_rejects_over_size. Qed.
+(* what an error-free parse (the embedded-mapping warning aside) says about the input: size
+   field, the serialised pairs, slack that cannot hold a pair, remainder — and Data()
+   reproduces the consumed bytes exactly when there is no slack *)
+Theorem C11_parsed_without_error_reserialises_iff_no_slack : forall b m r e, wf b ->
+  read_mapping b = Some (m, r, e) -> fatal_errors e = [] ->
+  exists slack, b = firstn 2 b ++ serialize_pairs (map_values m) ++ slack ++ r /\
+                (slack = [] \/ has_min_bytes slack = false) /\
+                (mapping_data m ++ r = b <-> slack = []).
+Proof. exact mapping_roundtrip_iff_no_slack. Qed.
+Print Assumptions C11_parsed_without_error_reserialises_iff_no_slack.
+(* the parser's loop never runs out of fuel: at most length+1 iterations, at most 1000 pairs *)
+Theorem C11_parser_terminates : forall b, read_mapping b <> None.
+Proof. exact read_mapping_terminates. Qed.
 (* "a mapping parsed without error re-serialises to the bytes it was read from" is FALSE of
    the faithful model (known finding D2): 1-5 bytes of slack inside the declared size *)
 Theorem C11_reserialise_refuted : exists x m, read_mapping x = Some (m, [], []) /\ mapping_data m <> x.
